@@ -288,6 +288,26 @@ def run(ctx, rep):
                         rep.problem("tournament", "winner is not a fittest of tour_size distinct contestants", case,
                                     "tournament", True, o, None, "C11_tournament")
                     f_ts.add(f"({q_list(ft)}, {C.cnat(tour)}, 1%nat, {to_draws(script)}, {z_list(o)})", case)
+    # ... and at the bottom of the value domain: -inf and the library's own clip value finfo.min (MIN_VALUE) among the contestants — the winner
+    # is still one of the contestants and a fittest one (implementation against the statement; the rational model has no infinities)
+    import itertools
+    lowvals = (float("-inf"), float(np.finfo(np.float64).min), -2.0, 1.0)
+    for n in range(1, 4):
+        for ft in itertools.product(lowvals, repeat=n):
+            for tour in range(1, n + 1):
+                for script, r in MR.enumerate_outcomes("thefittest.utils.selections.tournament_selection",
+                                                       lambda: (np.array(ft), np.array(ft), np.int64(tour), np.int64(1)),
+                                                       [], max_depth=tour + 1):
+                    o = [int(v) for v in r]
+                    rep.count("tournament-low-values", (tuple(map(str, ft)), tour, tuple(script)), nontrivial=False)
+                    cont = []
+                    for d in script:
+                        if d[2] not in cont:
+                            cont.append(d[2])
+                    if len(o) != 1 or o[0] not in cont or len(cont) != tour or any(ft[j] > ft[o[0]] for j in cont):
+                        rep.problem("tournament", "winner is not a fittest of tour_size distinct contestants (fitness values -inf / finfo.min among them)",
+                                    dict(fn="tournament_selection", fitness=[str(x) for x in ft], tour_size=tour, quantity=1, draws=script),
+                                    "tournament", True, o, None, "C11_tournament")
     # sattolo: all outcomes on the u grid for n <= 4 (5 thorough); cyclicity checked on the implementation
     sgrid = sorted(set([k / 4 for k in range(4)] + U_SPECIAL)) if ctx.quick else sorted(set([k / 8 for k in range(8)] + U_SPECIAL))
     for n in range(1, ctx.pick(4, 5) + 1):
